@@ -204,7 +204,7 @@ def sweepOuts (f : Nat → Entry → Option Bool) (dest : Nat → Entry → Out)
 
 def pingOuts (t : Tbl) : List Out :=
   t.filterMap fun p =>
-    if !p.2.gone && !p.2.closing && decide (0 < p.2.hops) then some (Out.cell p.2.peer p.1 6) else none
+    if !p.2.gone && Gen.pingWanted p.2.closing p.2.hops then some (Out.cell p.2.peer p.1 6) else none
 
 def Node.tick (c : Cfg) (s : Node) : Node :=
   let n := s.now + 1
